@@ -2,8 +2,8 @@ import SaModel.Lemmas.C03WF
 /-
 `newDT_builtFor`: the builder `build_builder` creates for a field stands for that field (`BuiltFor`).  No hypothesis:
 `build_builder` refuses Map types with other than two entry children and dictionaries with a non-integer key type (repo
-fixes 095456f / 7359431; before them this needed `Map2` — the pinned code ignored further entry children and the array it
-then produced was not of the declared type, see notes/C03.md).
+fixes 095456f / 7359431; the pinned code ignored further entry children and the array it then produced was not of the
+declared type, see notes/C03.md, Findings).
 -/
 namespace SaModel.Lemmas.C03
 open SaModel SaModel.Build SaModel.Spec
